@@ -1,4 +1,5 @@
 import SLE.Lemmas.Poll
+import SLE.Lemmas.OrderFacts
 /-!
 # C13 — the watchdog can stop analysis at any poll and is polled as often as promised
 
@@ -75,5 +76,25 @@ theorem C13_transparent {every : Nat} (wd : Nat → Bool) (hev : 0 < every) (vm 
 /-! ### Non-vacuity -/
 example : pipeline 3 (fun k => decide (5 ≤ k)) [[5], [], [], [0, 7]] [4, 10] = .failedWithStop 6 := by decide
 example : pipeline 3 (fun _ => false) [[5], [], [], [0, 7]] [4, 10] = .finished 13 := by decide
+
+
+/-! ### The unification loop: the counter advances on evidence-holding classes only -/
+
+/-- What one round counts: it reaches the polling check once per class and advances the counter
+once per class that holds evidence. -/
+theorem C13_unify_round_counts {o : Unify.Orders} {f : Unify.Forest} {next counter : Nat} {acc : Unify.RoundAcc}
+    (h : Unify.round o f next counter = .ok acc) :
+    acc.polls = (OrderFacts.classFlags f).length ∧
+    acc.counter = counter + (OrderFacts.classFlags f).count true :=
+  ⟨(OrderFacts.round_counts h).2.2.1, (OrderFacts.round_counts h).2.2.2⟩
+
+/-- The poll schedule of that loop (`pollsOf every flags counter`: poll when the counter is a
+multiple of the interval; advance it on evidence-holding classes): at least one poll per `every`
+evidence-holding classes, never more than one per class, and every class when the interval is 1. -/
+theorem C13_unify_poll_bounds (every : Nat) (hev : 0 < every) (flags : List Bool) (c : Nat) :
+    flags.count true ≤ (OrderFacts.pollsOf every flags c).1 * every + OrderFacts.toNextPoll every c ∧
+    (OrderFacts.pollsOf every flags c).1 ≤ flags.length ∧
+    (OrderFacts.pollsOf 1 flags c).1 = flags.length :=
+  ⟨OrderFacts.pollsOf_lower hev flags c, OrderFacts.pollsOf_le_length every flags c, OrderFacts.pollsOf_one flags c⟩
 
 end SLE.C13
